@@ -292,9 +292,29 @@ def choices_of(ev, world, pickidx=0):
     raise ValueError(ev)
 
 
+LABEL_EVENT = {
+    "AServer.serverLoop": "EServerLoop", "AServer.handleMsg": "EHandleMsg",
+    "AServerRequestVote.serverRequestVoteLoop": "ERVTimeout", "AServerRequestVote.requestVoteLoop": "ERVSend",
+    "AServerAppendEntries.serverAppendEntriesLoop": "EAELoop", "AServerAppendEntries.appendEntriesLoop": "EAESend",
+    "AServerAdvanceCommitIndex.serverAdvanceCommitIndexLoop": "EAdvance", "AServerAdvanceCommitIndex.applyLoop": "EApply",
+    "AServerBecomeLeader.serverBecomeLeaderLoop": "EBecomeLeader",
+    "AClient.clientLoop": "EClientLoop", "AClient.sndReq": "EClientSnd", "AClient.rcvResp": "EClientRcv",
+    "AServerCrasher.serverCrash": "ECrash", "AServerCrasher.fdUpdate": "EFdUpdate",
+}
+DEFAULT_ARGS = {
+    "EServerLoop": (0,), "EHandleMsg": (0, True), "ERVTimeout": (True, 0), "ERVSend": (0, True), "EAELoop": (0,), "EAESend": (0, True),
+    "EAdvance": (), "EApply": (), "EBecomeLeader": (0,), "EClientLoop": (("get", 1, 0),), "EClientSnd": (1, 0, True),
+    "EClientRcv": (0,), "ECrash": (), "EFdUpdate": (),
+}
+
+
 def observed_event(ev, out, world_before):
-    """rebuild the model event from what the implementation reports it consulted (choices log, elements);
+    """rebuild the model event from what the implementation reports: the LABEL that actually ran (a scripted event may address
+    an archetype that is at its other label), the choices it consulted, the elements it read/wrote;
     `ev` supplies only what the run cannot show (values never consulted keep the intended ones)"""
+    actual = LABEL_EVENT.get(out.get("label"))
+    if actual is not None and actual != ev[0] and not (actual == "EClientRcv" and ev[0] == "EClientTimeout"):
+        ev = (actual, ev[1]) + DEFAULT_ARGS[actual]
     ch = {}
     for cid, ceil, idx in out["ch"]:
         ch.setdefault(cid, []).append((ceil, idx))
